@@ -20,6 +20,7 @@ import (
 	"github.com/internetarchive/Zeno/internal/pkg/source/hq"
 	"github.com/internetarchive/Zeno/internal/pkg/source/lq"
 	"github.com/internetarchive/Zeno/internal/pkg/stats"
+	"github.com/internetarchive/Zeno/internal/pkg/verifhook"
 	"github.com/internetarchive/Zeno/pkg/models"
 )
 
@@ -159,15 +160,22 @@ func stopPipeline() {
 		"component": "controler.stopPipeline",
 	})
 
+	verifhook.At("stop.step", "begin")
 	watchers.StopDiskWatcher()
 	watchers.StopWARCWritingQueueWatcher()
+	verifhook.At("stop.step", "watchers")
 
 	reactor.Freeze()
+	verifhook.At("stop.step", "freeze")
 
 	preprocessor.Stop()
+	verifhook.At("stop.step", "preprocessor")
 	archiver.Stop()
+	verifhook.At("stop.step", "archiver")
 	postprocessor.Stop()
+	verifhook.At("stop.step", "postprocessor")
 	finisher.Stop()
+	verifhook.At("stop.step", "finisher")
 
 	if config.Get().UseSeencheck && !config.Get().UseHQ {
 		seencheck.Close()
@@ -179,7 +187,9 @@ func stopPipeline() {
 		lq.Stop()
 	}
 
+	verifhook.At("stop.step", "source")
 	reactor.Stop()
+	verifhook.At("stop.step", "reactor")
 
 	if config.Get().WARCTempDir != "" {
 		err := os.Remove(config.Get().WARCTempDir)
